@@ -158,5 +158,8 @@ PartialIsFlagged ==                                                        \* da
   (result.kind # "none" /\ result.kind = "ret" /\ api.shape = "in" /\ result.data # Chunks(api.n)) => result.status # OK
 Documented == (result.kind # "none" /\ result.kind = "exc") => result.val \in {"connerr", "abort", "timeout"}
 MirrorNoFault == (result.kind # "none" /\ faults = 0) => Succ
+\* on a link without faults the call has read every frame the device emitted for it (also the final response of a data phase of ZERO packets):
+\* nothing is left over that the next call on the same object would take for its own answer
+Drained == (result.kind # "none" /\ faults = 0) => d2h = <<>>
 Terminates == <>(result.kind # "none")
 =============================================================================
